@@ -87,7 +87,8 @@ func H_C15_Hist_Fast() {
 }
 
 // c15Native is the goroutine version used to replay an ownership violation under the race detector:
-// 8 goroutines share one Decoder, decode different inputs, read nested results and close.
+// 8 goroutines share one Decoder; each keeps two results alive at a time, decodes inputs with different
+// numbers of occurrences, with empty and non-empty nested messages, reads everything back and closes.
 func c15Native(mode int) {
 	dec, err := NewDecoder(c14Def(), WithMode(csproto.DecoderMode(mode)), WithMaxBufferSize(1))
 	if err != nil {
@@ -95,47 +96,81 @@ func c15Native(mode int) {
 	}
 	var wg sync.WaitGroup
 	errs := make(chan string, 64)
+	type want struct {
+		n    int
+		vals []uint64
+		subs []int64 // -1: empty nested message
+	}
+	build := func(g, it int) ([]byte, want) {
+		w := want{n: 1 + (g+it)%3}
+		b := make([]byte, 0, 64)
+		for i := 0; i < w.n; i++ {
+			v := uint64(g*100000 + it*10 + i)
+			w.vals = append(w.vals, v)
+			b = protowire.AppendVarint(protowire.AppendTag(b, 1, protowire.VarintType), v)
+			var sub []byte
+			if (g+it+i)%3 == 0 {
+				w.subs = append(w.subs, -1)
+			} else {
+				x := int64(g*7 + i + 1)
+				w.subs = append(w.subs, x)
+				sub = protowire.AppendVarint(protowire.AppendTag(nil, 1, protowire.VarintType), uint64(x))
+			}
+			b = protowire.AppendBytes(protowire.AppendTag(b, 2, protowire.BytesType), sub)
+		}
+		return b, w
+	}
+	check := func(r *DecodeResult, w want) string {
+		vs, err := r.UInt64Values(1)
+		if err != nil || len(vs) != w.n {
+			return fmt.Sprint("values: ", err, len(vs), w.n)
+		}
+		for i := range vs {
+			if vs[i] != w.vals[i] {
+				return "foreign value observed"
+			}
+		}
+		nrs, err := r.NestedResults(2)
+		if err != nil || len(nrs) != w.n {
+			return fmt.Sprint("nested: ", err)
+		}
+		for i, nr := range nrs {
+			x, err := nr.UInt64Value(1)
+			if w.subs[i] < 0 {
+				if err == nil {
+					return "an empty nested message exposes a foreign value"
+				}
+			} else if err != nil || x != uint64(w.subs[i]) {
+				return "foreign nested value observed"
+			}
+		}
+		return ""
+	}
 	for g := 0; g < 8; g++ {
 		wg.Add(1)
 		go func(g int) {
 			defer wg.Done()
 			for it := 0; it < 300; it++ {
-				n := 1 + (g+it)%3
-				b := make([]byte, 0, 64)
-				for i := 0; i < n; i++ {
-					b = protowire.AppendVarint(protowire.AppendTag(b, 1, protowire.VarintType), uint64(g*1000+it+i))
-					sub := protowire.AppendVarint(protowire.AppendTag(nil, 1, protowire.VarintType), uint64(g*7+i))
-					b = protowire.AppendBytes(protowire.AppendTag(b, 2, protowire.BytesType), sub)
-				}
-				r, err := dec.Decode(b)
-				if err != nil || r == nil {
-					errs <- fmt.Sprint("decode: ", err)
+				b1, w1 := build(g, it)
+				b2, w2 := build(g, it+1)
+				r1, err1 := dec.Decode(b1)
+				r2, err2 := dec.Decode(b2)
+				if err1 != nil || err2 != nil || r1 == nil || r2 == nil {
+					errs <- fmt.Sprint("decode: ", err1, err2)
 					return
 				}
-				vs, err := r.UInt64Values(1)
-				if err != nil || len(vs) != n {
-					errs <- fmt.Sprint("values: ", err, len(vs), n)
-					return
-				}
-				for i := range vs {
-					if vs[i] != uint64(g*1000+it+i) {
-						errs <- "foreign value observed"
+				for _, e := range []string{check(r1, w1), check(r2, w2), check(r1, w1)} {
+					if e != "" {
+						errs <- e
 						return
 					}
 				}
-				nrs, err := r.NestedResults(2)
-				if err != nil || len(nrs) != n {
-					errs <- fmt.Sprint("nested: ", err)
+				_ = r2.Close()
+				if e := check(r1, w1); e != "" {
+					errs <- e
 					return
 				}
-				for i, nr := range nrs {
-					x, err := nr.UInt64Value(1)
-					if err != nil || x != uint64(g*7+i) {
-						errs <- "foreign nested value observed"
-						return
-					}
-				}
-				_ = r.Close()
+				_ = r1.Close()
 			}
 		}(g)
 	}
